@@ -323,3 +323,211 @@ func VerifC14XMLDecode() {
 	verifAssert(got == want, "C14/xml-decoded-value-differs")
 	verifCover("C14/xml/end")
 }
+
+// ---- URI ----
+
+// c14PercentDecode: an independent reader of application/x-www-form-urlencoded text: %XX is a byte, + a blank,
+// everything else stands for itself. ok=false for a malformed escape; clean=false when a character appears bare
+// that the format reserves (anything but unreserved characters, '+' and '%').
+func c14PercentDecode(t string) (val string, ok bool, clean bool) {
+	clean = true
+	hex := func(c byte) (byte, bool) {
+		switch {
+		case verifConcreteBool(c >= '0' && c <= '9'):
+			return c - '0', true
+		case verifConcreteBool(c >= 'A' && c <= 'F'):
+			return c - 'A' + 10, true
+		case verifConcreteBool(c >= 'a' && c <= 'f'):
+			return c - 'a' + 10, true
+		}
+		return 0, false
+	}
+	for i := 0; i < len(t); i++ {
+		c := t[i]
+		switch {
+		case verifConcreteBool(c == '%'):
+			if i+2 >= len(t) {
+				return "", false, clean
+			}
+			h, ok1 := hex(t[i+1])
+			l, ok2 := hex(t[i+2])
+			if !ok1 || !ok2 {
+				return "", false, clean
+			}
+			val += string([]byte{h<<4 | l})
+			i += 2
+		case verifConcreteBool(c == '+'):
+			val += " "
+		default:
+			unreserved := (c >= 'a' && c <= 'z') || (c >= 'A' && c <= 'Z') || (c >= '0' && c <= '9') || c == '-' || c == '_' || c == '.' || c == '~'
+			if !verifConcreteBool(unreserved) {
+				clean = false
+			}
+			val += t[i : i+1]
+		}
+	}
+	return val, true, clean
+}
+
+// VerifC14URI: @uri of every byte string reads back, by the independent reader and by @urid, to that string.
+func VerifC14URI() {
+	s := verifStr("s", verifParam("maxlen", 2), "\x01\xff")
+	var sb strings.Builder
+	err := NewUriEncoder().Encode(c17Writer{&sb}, &CandidateNode{Kind: ScalarNode, Tag: "!!str", Value: s})
+	verifAssert(err == nil, "C14/uri-encode-error")
+	if err != nil {
+		return
+	}
+	enc := sb.String()
+	verifObserve("enc", enc)
+	val, ok, clean := c14PercentDecode(enc)
+	verifAssert(ok, "C14/uri-malformed-escape")
+	if ok {
+		verifAssert(verifEqStr(val, s), "C14/uri-reads-back-as-other-value")
+		verifAssert(clean, "C14/uri-reserved-character-unescaped")
+	}
+	dec := NewUriDecoder()
+	if dec.Init(strings.NewReader(enc)) != nil {
+		verifFail("C14/uri-decoder-init")
+	}
+	n, derr := dec.Decode()
+	verifAssert(derr == nil && n != nil, "C14/uri-decode-error")
+	if derr == nil && n != nil {
+		verifAssert(verifEqStr(n.Value, s), "C14/urid-is-not-inverse-of-uri")
+	}
+	verifCover("C14/uri/end")
+}
+
+// ---- properties (encoder) ----
+
+// c14PropsReadLine: an independent reader of one `key = value` line of the .properties format (Java
+// Properties.load): the key ends at the first unescaped '=', ':' or blank; blanks and one separator are
+// skipped; in key and value a backslash escapes the next character (\n \t \r \f named, \uXXXX not produced for
+// ASCII), anything else stands for itself.
+func c14PropsReadLine(line string) (key, val string, ok bool) {
+	i := 0
+	unesc := func(c byte) string {
+		switch {
+		case verifConcreteBool(c == 'n'):
+			return "\n"
+		case verifConcreteBool(c == 't'):
+			return "\t"
+		case verifConcreteBool(c == 'r'):
+			return "\r"
+		case verifConcreteBool(c == 'f'):
+			return "\f"
+		}
+		return string([]byte{c})
+	}
+	for i < len(line) {
+		c := line[i]
+		if verifConcreteBool(c == '\\') {
+			if i+1 >= len(line) {
+				return "", "", false
+			}
+			key += unesc(line[i+1])
+			i += 2
+			continue
+		}
+		if verifConcreteBool(c == '=' || c == ':' || c == ' ' || c == '\t') {
+			break
+		}
+		key += line[i : i+1]
+		i++
+	}
+	for i < len(line) && verifConcreteBool(line[i] == ' ' || line[i] == '\t') {
+		i++
+	}
+	if i < len(line) && verifConcreteBool(line[i] == '=' || line[i] == ':') {
+		i++
+	}
+	for i < len(line) && verifConcreteBool(line[i] == ' ' || line[i] == '\t') {
+		i++
+	}
+	for i < len(line) {
+		c := line[i]
+		if verifConcreteBool(c == '\\') {
+			if i+1 >= len(line) {
+				return "", "", false
+			}
+			val += unesc(line[i+1])
+			i += 2
+			continue
+		}
+		val += line[i : i+1]
+		i++
+	}
+	return key, val, true
+}
+
+// VerifC14PropsEncode: a flat map {K: V} with arbitrary printable ASCII in key and value encodes to one
+// `K = V` line that the independent reader maps back to K and V.
+func VerifC14PropsEncode() {
+	k := verifStrN("k", 1, " ~")
+	v := verifStr("v", verifParam("maxlen", 2), " ~")
+	doc := vDoc(vMap(vStr(k), vStr(v)))
+	var sb strings.Builder
+	prefs := NewDefaultPropertiesPreferences()
+	prefs.UnwrapScalar = verifChoice("unwrapScalar", 2) == 1
+	err := NewPropertiesEncoder(prefs).Encode(c17Writer{&sb}, doc)
+	if err != nil {
+		verifCover("C14/props/error")
+		return
+	}
+	out := sb.String()
+	verifObserve("out", out)
+	verifAssert(len(out) > 0 && verifConcreteBool(out[len(out)-1] == '\n'), "C14/props-line-not-terminated")
+	if len(out) == 0 {
+		return
+	}
+	line := out[:len(out)-1]
+	for i := 0; i < len(line); i++ {
+		verifAssert(!verifConcreteBool(line[i] == '\n'), "C14/props-value-breaks-the-line")
+	}
+	if len(line) > 0 {
+		// a line whose first character is # or ! is a comment to every reader of the format
+		verifAssert(!verifConcreteBool(line[0] == '#' || line[0] == '!'), "C14/props-entry-reads-as-a-comment")
+	}
+	gk, gv, ok := c14PropsReadLine(line)
+	verifAssert(ok, "C14/props-dangling-escape")
+	if ok {
+		kc := "other"
+		switch {
+		case verifConcreteBool(k[0] == '='):
+			kc = "equals-sign"
+		case verifConcreteBool(k[0] == '#' || k[0] == '!'):
+			kc = "comment-character"
+		}
+		verifAssert(verifEqStr(gk, k), "C14/props-key-reads-back-as-other-key key="+kc)
+		if prefs.UnwrapScalar {
+			vc := "other"
+			if len(v) > 0 && verifConcreteBool(v[0] == ' ') {
+				vc = "leading-blank"
+			}
+			verifAssert(verifEqStr(gv, v), "C14/props-value-reads-back-as-other-value key="+kc+" value="+vc)
+		}
+	}
+	verifCover("C14/props/end")
+}
+
+// VerifC14URIDecode: every byte string handed to -p=uri / @urid: where the text is well-formed the value is what
+// the independent reader says it denotes; where an escape is malformed an error is reported — never another value.
+func VerifC14URIDecode() {
+	t := verifStr("text", verifParam("maxlen", 4), "\x01\x7f")
+	want, wellFormed, _ := c14PercentDecode(t)
+	dec := NewUriDecoder()
+	if dec.Init(strings.NewReader(t)) != nil {
+		verifFail("C14/uri-decoder-init")
+	}
+	n, err := dec.Decode()
+	if !wellFormed {
+		verifCover("C14/urid/malformed")
+		verifAssert(err != nil, "C14/urid-malformed-escape-accepted")
+		return
+	}
+	verifAssert(err == nil && n != nil, "C14/urid-well-formed-text-rejected")
+	if err == nil && n != nil {
+		verifAssert(verifEqStr(n.Value, want), "C14/urid-decodes-to-other-value")
+	}
+	verifCover("C14/urid/end")
+}
